@@ -131,8 +131,8 @@ def inv_undirected(H):
     return sorted(set(bad))
 
 
-def inv_directed(D):
-    """C02 clauses on a DiHypergraph."""
+def inv_directed(D, deep=False):
+    """C02 clauses on a DiHypergraph (deep=True: also the order= / degree= variants of the directed statistics)."""
     bad = []
     try:
         nodes = list(D.nodes)
@@ -210,6 +210,26 @@ def inv_directed(D):
             t, h = dm[e]
             if ts[e] != len(t) or hs[e] != len(h) or sz[e] != len(t | h):
                 bad.append("sizes-disagree-with-dimembers")
+        # the option variants of the same statistics (order= on the node side, degree= on the edge side)
+        if not deep:
+            return sorted(set(bad))
+        esize = {e: len(dm[e][0] | dm[e][1]) for e in edges}
+        ndeg = {n: len(dms[n][0] | dms[n][1]) for n in nodes}
+        for k in (0, 1, 2):
+            ik, ok_, dk = D.nodes.in_degree(order=k).asdict(), D.nodes.out_degree(order=k).asdict(), D.nodes.degree(order=k).asdict()
+            for n in nodes:
+                i, o = dms[n]
+                if (ik[n] != sum(1 for e in i if esize[e] == k + 1) or ok_[n] != sum(1 for e in o if esize[e] == k + 1)
+                        or dk[n] != sum(1 for e in (i | o) if esize[e] == k + 1)):
+                    bad.append("order-filtered-degrees-disagree-with-dimemberships")
+        for d in (1, 2):
+            so, ss = D.edges.order(degree=d).asdict(), D.edges.size(degree=d).asdict()
+            hs_, ts_ = D.edges.head_size(degree=d).asdict(), D.edges.tail_size(degree=d).asdict()
+            for e in edges:
+                t, h = dm[e]
+                want = sum(1 for n in (t | h) if ndeg[n] == d)
+                if ss[e] != want or so[e] != want - 1 or hs_[e] != sum(1 for n in h if ndeg[n] == d) or ts_[e] != sum(1 for n in t if ndeg[n] == d):
+                    bad.append("degree-filtered-sizes-disagree-with-dimembers")
     except Exception as exc:
         bad.append(f"stat-unobservable:{type(exc).__name__}")
     return sorted(set(bad))
